@@ -600,6 +600,7 @@ func (fr *Frame) convert(in *ssa.Convert, st *State, pos string) Val {
 	case fs == SInt && ts == SInt:
 		return &VS{vc.nameIfBig(convInt(scalarOf(x, from), from, to))}
 	case fs == SInt && ts == SReal:
+		vc.note("floating point treated as real arithmetic: integer to float conversion exact (true below 2^53), products and comparisons unrounded")
 		return &VS{mkApp("to_real", SReal, scalarOf(x, from))}
 	case fs == SReal && ts == SInt:
 		t := scalarOf(x, from)
